@@ -7,6 +7,7 @@ import Depccg.OpsSearch
 import Depccg.OpsGlue
 import Depccg.OpsTree
 import Depccg.OpsXml
+import Depccg.OpsMore
 
 namespace Depccg
 namespace Ops
@@ -148,6 +149,7 @@ def dispatch (st : State) (line : String) : State × String :=
     if let some r := OpsGlue.dispatch op ts then (st, r) else
     if let some r := OpsTree.dispatch op ts then (st, r) else
     if let some r := OpsXml.dispatch op ts then (st, r) else
+    if let some r := OpsMore.dispatch op ts then (st, r) else
     match catOps op ts with
     | some r => (st, r)
     | none =>
